@@ -134,6 +134,63 @@ def location_spelling_bounded(ctx):
                                 "only_here": sorted(map(str, (run - results['plain']).keys()))[:6],
                                 "only_in_plain": sorted(map(str, (results['plain'] - run).keys()))[:6]})
             os.chdir(cwd0)
+        # (d) one process, two projects: lint A (its .thailintignore says vendor/), then chdir into B and lint `.` with a
+        # root-less Orchestrator() -- B must be judged by B's own patterns (none), exactly as a fresh process does
+        import json
+        import subprocess
+        pa, pb = os.path.join(base, "seqA"), os.path.join(base, "seqB")
+        for pth in (pa, pb):
+            os.makedirs(os.path.join(pth, "vendor"))
+            for rel in ("vendor/mod.py", "app.py"):
+                pathlib.Path(pth, rel).write_text(_BODY, encoding="utf-8")
+        pathlib.Path(pa, ".thailintignore").write_text("vendor/\n", encoding="utf-8")
+        clear_ignore_parser_cache()
+        os.chdir(pa)
+        Orchestrator(project_root=pathlib.Path(pa)).lint_directory(pathlib.Path(pa))
+        os.chdir(pb)
+        here = _rel_key(Orchestrator().lint_directory(pathlib.Path(".")), pb)
+        code = ("import sys, json, os; sys.path.insert(0, sys.argv[1]); from pathlib import Path; "
+                "from src.orchestrator.core import Orchestrator; vs = Orchestrator().lint_directory(Path('.')); "
+                "print(json.dumps(sorted([v.rule_id, os.path.relpath(os.path.realpath(v.file_path), os.path.realpath('.')), v.line] for v in vs)))")
+        pr = subprocess.run([sys.executable, "-c", code, _native.repo_root()], capture_output=True, text=True, timeout=120, cwd=pb)
+        if pr.returncode != 0:
+            raise RuntimeError("sub-process failed: " + pr.stderr[-300:])
+        fresh = [tuple(x) for x in json.loads(pr.stdout.strip().splitlines()[-1])]
+        mine = sorted(k for k, c in here.items() for _ in range(c))
+        cases += 2
+        if mine != sorted(fresh):
+            return bad("after linting project A, a root-less Orchestrator() in project B's directory is filtered by A's ignore patterns",
+                       {"sequence": ["lint A (.thailintignore: vendor/)", "chdir B", "Orchestrator().lint_directory('.')"],
+                        "same_process_only": sorted(map(str, set(mine) - set(fresh)))[:6],
+                        "fresh_process_only": sorted(map(str, set(fresh) - set(mine)))[:6]})
+        os.chdir(cwd0)
+        # (e) DRY with an inline `# dry: ignore-block` suppression: spellings with an interior `..` (tools/../pkg) agree with
+        # the plain spelling (stored and looked-up keys of per-file data must be the same spelling)
+        pd = os.path.join(base, "dryproj")
+        os.makedirs(os.path.join(pd, "pkg"))
+        os.makedirs(os.path.join(pd, "tools"))
+        block = ("    total = 0\n    for item in items:\n        if item.value > threshold:\n            total += item.value * factor\n"
+                 "        else:\n            total -= item.value / factor\n    result = transform(total, mode=\"fast\")\n"
+                 "    return finalize_result(result, items)\n")
+        pathlib.Path(pd, "pkg", "alpha.py").write_text("def first(items, threshold, factor):\n" + block, encoding="utf-8")
+        pathlib.Path(pd, "pkg", "beta.py").write_text("# dry: ignore-block\ndef second(items, threshold, factor):\n" + block, encoding="utf-8")
+        pathlib.Path(pd, "pkg", "gamma.py").write_text("def third(items, threshold, factor):\n" + block, encoding="utf-8")
+        dcfg = {"dry": {"enabled": True, "min_duplicate_lines": 3, "storage_mode": "memory"}}
+        os.chdir(pd)
+        runs = {}
+        for spelling in ("pkg", "./pkg", "tools/../pkg", os.path.join(pd, "pkg"), os.path.join(pd, "tools", "..", "pkg")):
+            clear_ignore_parser_cache()
+            o = Orchestrator(project_root=pathlib.Path(pd), config=json.loads(json.dumps(dcfg)))
+            runs[spelling] = _rel_key([v for v in o.lint_directory(pathlib.Path(spelling)) if v.rule_id.startswith("dry")], pd)
+            cases += 1
+        if not runs["pkg"] or any(k[1].endswith("beta.py") for k in runs["pkg"]):
+            raise RuntimeError(f"DRY scenario too weak: baseline {sorted(runs['pkg'])}")
+        for spelling, r in runs.items():
+            if r != runs["pkg"]:
+                return bad("a target spelled with an interior `..` reports different DRY violations (inline suppression lost)",
+                           {"spelling": spelling, "baseline": "pkg", "only_here": sorted(map(str, (r - runs['pkg']).keys()))[:6],
+                            "only_baseline": sorted(map(str, (runs['pkg'] - r).keys()))[:6]})
+        os.chdir(cwd0)
         # (c) project-root detection: every spelling of a target inside the project detects the same root
         real_root = os.path.realpath(root)
         os.chdir(os.path.join(root, "src"))
